@@ -139,9 +139,16 @@ def expected_links(labels, values, ids=()):
             owners = [r for r, b in zip(refs, bits_now) if b == 0]
             if l == '222000':
                 k = 0
-                if j < n and labels[j][:3] != '033' and labels[j] not in ('222000', '223000', '224000', '225000', '232000', '235000', '237255'):
+                assoc = lambda x: x[0] == 'A'          # 204YYY in force: every value is preceded by its associated field
+                jj = j + 1 if j < n and assoc(labels[j]) else j
+                if jj < n and labels[jj][:3] != '033' and labels[jj] not in ('222000', '223000', '224000', '225000', '232000', '235000', '237255', '204000'):
                     return None      # other elements between the bitmap and the quality values: outside this oracle
-                while j < n and labels[j][:3] == '033' and k < len(owners):
+                while j < n and k < len(owners):
+                    if assoc(labels[j]):
+                        j += 1
+                        continue
+                    if labels[j][:3] != '033':
+                        break
                     links[j] = owners[k]
                     k += 1
                     j += 1
@@ -190,9 +197,15 @@ def run(ctx):
         inner = [204000 + b2, 31021, el(), 204000]
         ids = [204000 + a, 31021, el()] + inner + [el(), el(), 204000]
         forced = '-'
-        if k % 2:
+        if k % 3 == 1:
             ids += [el(), 222000, 236000, 101002, 31031, 33007]
             forced = '31031=%d.%d' % tuple(rng.choice([(0, 1), (1, 0)]))
+        elif k % 3 == 2:
+            # 204YYY still in force while the quality values after 222000 are coded: each 033007 is preceded by its
+            # own associated field, the link belongs to the 033007 value
+            bits = rng.choice([(0, 0, 1), (0, 1, 0), (1, 0, 0), (0, 0, 0)])
+            ids = [204000 + a, 31021, el(), el(), el(), 222000, 236000, 101003, 31031] + [33007] * bits.count(0) + [204000]
+            forced = '31031=%d.%d.%d' % bits
         cases.append({'ids': ids, 'version': 33, 'edition': 4, 'nsub': rng.choice([1, 2]), 'compressed': rng.random() < 0.3,
                       'forced': forced, 'seed': rng.randrange(1, 2 ** 32), 'maxrep': 3,
                       'features': {'nested-204-then-outer': 1}, 'shared': False})
